@@ -36,7 +36,7 @@ PROPS = {
                     "harness/internal/track (props of the ws family)",
             "technique": "Lean 4 proof (ownership invariant by induction over op sequences) + differential trace correspondence + tracking allocator"},
         "lean": ["NbioVerif.Properties.C11"], "drivers": ["respdrv"], "harness": ["hresp"],
-        "runs": [dict(RESP_RUN, fields=["n", "err", "tr", "rd", "cache", "q"])],
+        "runs": [dict(RESP_RUN, fields=["n", "err", "tr", "rd", "cache", "q", "msg", "dl", "fl"])],
         "oracles": ["c11-"],
         "rule": "same stream as C09 (resp cases) plus body cases (segmented requests, handler reads, CloseAndClean) and conn cases (write "
                 "queue under scripted kernel answers); distinct by hash of (config, op-kind sequence with conn writes / parser state / "
